@@ -34,6 +34,8 @@ LEAF = {
     # a head that BLOCKS substitution (block="substitution") and its would-be member: the member never stands in for
     # the head, so the two particles do not compete
     'h': frozenset('h'), 'i': frozenset('i'),
+    # a reference to the ABSTRACT member n of a's group: only its own member k (of another type, xs:token) stands for it
+    'n': frozenset('k'),
 }
 GLOBALS_BLOCKED = ('<xs:element name="h" type="xs:string" block="substitution"/>'
                    '<xs:element name="i" type="xs:string" substitutionGroup="t:h"/>')
@@ -133,7 +135,7 @@ GLOBALS = ('<xs:element name="a" type="xs:string"/><xs:element name="b" type="xs
            '<xs:element name="c" type="xs:string"/>'
            '<xs:element name="m" type="xs:string" substitutionGroup="t:a"/>'
            '<xs:element name="n" type="xs:string" substitutionGroup="t:a" abstract="true"/>'
-           '<xs:element name="k" type="xs:string" substitutionGroup="t:n"/>')
+           '<xs:element name="k" type="xs:token" substitutionGroup="t:n"/>')
 HEAD = ('<xs:schema xmlns:xs="http://www.w3.org/2001/XMLSchema" xmlns:t="%s" targetNamespace="%s" '
         'elementFormDefault="qualified">' % (T, T))
 
